@@ -42,6 +42,8 @@ const (
 	STALL     = "STALL"     // stop reading altogether (peer's writes eventually block)
 	CLOSE1000 = "CLOSE1000" // the client receives a close frame (1000 normal closure), then the connection ends
 	CLOSE1001 = "CLOSE1001" // the client receives a close frame (1001 going away: restart / draining proxy), then the connection ends
+	CLOSE1012 = "CLOSE1012" // close frame 1012 service restart
+	CLOSE1013 = "CLOSE1013" // close frame 1013 try again later
 )
 
 // MsgInfo summarises one complete data message.
@@ -298,10 +300,15 @@ func (p *Proxy) kill(pc *pconn, kind string) {
 	}
 	close(pc.stallCh)
 	switch kind {
-	case CLOSE1000, CLOSE1001:
-		code := byte(0xe8) // 1000
-		if kind == CLOSE1001 {
+	case CLOSE1000, CLOSE1001, CLOSE1012, CLOSE1013:
+		code := byte(0xe8) // 1000 = 0x03e8
+		switch kind {
+		case CLOSE1001:
 			code = 0xe9
+		case CLOSE1012:
+			code = 0xf4
+		case CLOSE1013:
+			code = 0xf5
 		}
 		if pc.ws {
 			// unmasked server->client close frame with a 2-byte status code
